@@ -1,0 +1,29 @@
+//go:build verif
+// +build verif
+
+package pkcs12
+
+// Verification hook (build tag "verif" only).
+
+// VerifMacDigests returns the MAC digest stored in a PFX and the digest that
+// its current authenticated content would need under password, so that a
+// harness can restore a valid MAC after changing the content.
+func VerifMacDigests(p12Data []byte, password string) (stored, wanted []byte, err error) {
+	pw, err := bmpString(password)
+	if err != nil {
+		return nil, nil, err
+	}
+	pfx := new(pfxPdu)
+	if err := unmarshal(p12Data, pfx); err != nil {
+		return nil, nil, err
+	}
+	if err := unmarshal(pfx.AuthSafe.Content.Bytes, &pfx.AuthSafe.Content); err != nil {
+		return nil, nil, err
+	}
+	stored = append([]byte(nil), pfx.MacData.Mac.Digest...)
+	md := pfx.MacData
+	if err := computeMac(&md, pfx.AuthSafe.Content.Bytes, pw); err != nil {
+		return nil, nil, err
+	}
+	return stored, md.Mac.Digest, nil
+}
